@@ -1,6 +1,6 @@
 SPECIFICATION Spec
 CONSTANTS
- Texts = {"ode", "alg", "conn", "invalid", "parseerr", "under", "over", "v11", "garbage", "empty", "foreign", "imp_ok", "imp_units", "imp_missing", "imp_noent", "imp_garbage", "imp_foreign", "imp_11", "imp_10err", "imp_cycle"}
+ Texts = {"ode", "alg", "conn", "invalid", "parseerr", "under", "over", "v11", "garbage", "empty", "foreign", "imp_ok", "imp_units", "imp_missing", "imp_noent", "imp_garbage", "imp_foreign", "imp_11", "imp_10err", "imp_cycle", "imp_empty"}
  MaxLen = 2
  Insts = {"fresh", "reused"}
  OpsUsed = {"parse", "validate", "analyse", "generate", "print", "resolve", "flatten", "assignIds", "lookup"}
